@@ -128,7 +128,125 @@ func fromRec(r PRec) *Payload {
 	return p
 }
 
-func runScript(out *TraceWriter, path string, from, runs int) {
+
+func idsOf(evs []sEvent) (ids, faulty []int) {
+	ids, faulty = []int{}, []int{}
+	for _, e := range evs {
+		id := 500
+		if e.N != nil {
+			id = *e.N
+		}
+		if indexOf(ids, id) < 0 {
+			ids = append(ids, id)
+		}
+	}
+	for _, v := range evs[0].Env.Ledger.Vals {
+		if indexOf(ids, v) < 0 && evs[0].N != nil {
+			faulty = append(faulty, v)
+		}
+	}
+	return
+}
+
+// playBehaviour executes one behaviour on the real nodes of cluster c (created on demand); the injected clock reads the
+// specification's instant plus offset. Returns the trace lines (also written by the cluster when it has an output).
+func playBehaviour(c *Cluster, evs []sEvent, offset int64) []*Line {
+	var lines []*Line
+	var vals []int
+	c.Vals = func(h uint32) []int { return vals }
+	for _, e := range evs {
+		c.Clk.Now = e.Env.Now + offset
+		id := 500
+		if e.N != nil {
+			id = *e.N
+		}
+		n := c.byID[id]
+		if n == nil {
+			if e.Cfg == nil {
+				continue
+			}
+			vals = e.Env.Ledger.Vals
+			n = NewNode(id, *e.Cfg, c, c.Clk)
+			n.Broadcast = func(*Node, *Payload) {}
+			n.Height, n.TipHash, n.TipTs = e.Env.Ledger.Height, H(e.Env.Ledger.Tip), e.Env.Ledger.TipTs
+			c.Nodes = append(c.Nodes, n)
+			c.byID[id] = n
+		}
+		// the application's ledger is whatever the specification's environment says it is for this call
+		vals = e.Env.Ledger.Vals
+		n.Height, n.TipHash, n.TipTs = e.Env.Ledger.Height, H(e.Env.Ledger.Tip), e.Env.Ledger.TipTs
+		n.Known = map[H]Tx{}
+		for _, t := range e.Env.Known {
+			n.Known[H(t)] = Tx(t)
+		}
+		n.Pool = nil
+		for _, t := range e.Env.Pool {
+			n.Pool = append(n.Pool, Tx(t))
+		}
+		n.BadTx = map[H]bool{}
+		for _, t := range e.Env.Bad {
+			n.BadTx[H(t)] = true
+		}
+		n.FailPreBlock, n.FailBlock, n.NilBlock = e.Env.FailPre, e.Env.FailBlock, e.Env.NilBlock
+		nv, _ := strconv.ParseUint(e.Env.Nonce, 10, 64)
+		rand.Reader = &fixedNonce{v: nv}
+		var l *Line
+		switch e.Call {
+		case "Start":
+			l = n.Start()
+		case "Reset":
+			l = n.Reset()
+		case "Restart": // the process restarts: a fresh DBFT object over the same ledger
+			l = n.Restart()
+		case "OnReceive":
+			var r PRec
+			if err := json.Unmarshal(e.Arg, &r); err != nil {
+				panic(err)
+			}
+			l = n.Receive(fromRec(r))
+		case "OnTimeout":
+			var a HV
+			_ = json.Unmarshal(e.Arg, &a)
+			l = n.Timeout(a.H, byte(a.V))
+		case "OnTransaction":
+			var a TxArg
+			_ = json.Unmarshal(e.Arg, &a)
+			l = n.Transaction(Tx(a.Tx))
+		case "OnNewTransaction":
+			l = n.NewTransaction()
+		}
+		if l != nil {
+			lines = append(lines, c.Emit(l))
+		}
+	}
+	return lines
+}
+
+// playPair (C14): the same behaviour - identical calls, payloads, ledger and callback results - against two clocks that differ
+// by delta; written as Pair lines (mode "inputs") for the clock-shift formula. The comparison of a pair stops once a cache
+// inbox holds two payloads of a kind (their replay order is Go's map order: the two runs may then legitimately differ).
+func playPair(out *TraceWriter, evs []sEvent, run int, delta int64) {
+	ids, _ := idsOf(evs)
+	out.Write(RunStart{Call: "RunStart", Run: run, Seed: 0, Driver: "scriptpair", Nodes: ids, Faulty: []int{},
+		Params: map[string]any{"events": len(evs), "delta": delta, "mode": "inputs"}})
+	la := playBehaviour(NewCluster(int64(run), nil), evs, 0)
+	lb := playBehaviour(NewCluster(int64(run), nil), evs, delta)
+	for i := 0; i < len(la) && i < len(lb); i++ {
+		out.Write(Pair{Call: "Pair", Run: run, I: i + 1, Delta: delta, Mode: "inputs", A: la[i], B: lb[i]})
+		for _, l := range []*Line{la[i], lb[i]} {
+			if l.Panic != "" || l.Post == nil {
+				return
+			}
+			for _, in := range l.Post.Cache {
+				if len(in.Prepare) > 1 || len(in.ChViews) > 1 || len(in.PreCommit) > 1 || len(in.Commit) > 1 {
+					return
+				}
+			}
+		}
+	}
+}
+
+func runScript(out *TraceWriter, path string, from, runs int, pairDelta int64) {
 	f, err := os.Open(path)
 	if err != nil {
 		panic(err)
@@ -149,25 +267,12 @@ func runScript(out *TraceWriter, path string, from, runs int) {
 		if len(evs) == 0 || evs[0].Call != "Start" || evs[0].Cfg == nil {
 			continue
 		}
+		if pairDelta != 0 {
+			playPair(out, evs, run, pairDelta)
+			continue
+		}
 		c := NewCluster(int64(run), out)
-		var vals []int
-		c.Vals = func(h uint32) []int { return vals }
-		ids := []int{}
-		for _, e := range evs {
-			id := 500
-			if e.N != nil {
-				id = *e.N
-			}
-			if indexOf(ids, id) < 0 {
-				ids = append(ids, id)
-			}
-		}
-		faulty := []int{}
-		for _, v := range evs[0].Env.Ledger.Vals {
-			if indexOf(ids, v) < 0 && evs[0].N != nil {
-				faulty = append(faulty, v)
-			}
-		}
+		ids, faulty := idsOf(evs)
 		params := map[string]any{"events": len(evs), "n0": evs[0].Env.Ledger.NVals, "myIndex": evs[0].Env.Ledger.MyIndex,
 			"h0": evs[0].Env.Ledger.Height, "tpb": evs[0].Cfg.Tpb, "maxTpb": evs[0].Cfg.MaxTpb, "delayMax": delayMaxOf(evs[0])}
 		if evs[0].C09 {
@@ -175,67 +280,7 @@ func runScript(out *TraceWriter, path string, from, runs int) {
 			faulty = []int{} // silent validators are not Byzantine: every real node counts for agreement
 		}
 		out.Write(RunStart{Call: "RunStart", Run: run, Seed: 0, Driver: "script", Nodes: ids, Faulty: faulty, Sync: evs[0].Sync, Params: params})
-		for _, e := range evs {
-			c.Clk.Now = e.Env.Now
-			id := 500
-			if e.N != nil {
-				id = *e.N
-			}
-			n := c.byID[id]
-			if n == nil {
-				if e.Cfg == nil {
-					continue
-				}
-				vals = e.Env.Ledger.Vals
-				n = NewNode(id, *e.Cfg, c, c.Clk)
-				n.Broadcast = func(*Node, *Payload) {}
-				n.Height, n.TipHash, n.TipTs = e.Env.Ledger.Height, H(e.Env.Ledger.Tip), e.Env.Ledger.TipTs
-				c.Nodes = append(c.Nodes, n)
-				c.byID[id] = n
-			}
-			// the application's ledger is whatever the specification's environment says it is for this call
-			vals = e.Env.Ledger.Vals
-			n.Height, n.TipHash, n.TipTs = e.Env.Ledger.Height, H(e.Env.Ledger.Tip), e.Env.Ledger.TipTs
-			n.Known = map[H]Tx{}
-			for _, t := range e.Env.Known {
-				n.Known[H(t)] = Tx(t)
-			}
-			n.Pool = nil
-			for _, t := range e.Env.Pool {
-				n.Pool = append(n.Pool, Tx(t))
-			}
-			n.BadTx = map[H]bool{}
-			for _, t := range e.Env.Bad {
-				n.BadTx[H(t)] = true
-			}
-			n.FailPreBlock, n.FailBlock, n.NilBlock = e.Env.FailPre, e.Env.FailBlock, e.Env.NilBlock
-			nv, _ := strconv.ParseUint(e.Env.Nonce, 10, 64)
-			rand.Reader = &fixedNonce{v: nv}
-			switch e.Call {
-			case "Start":
-				c.Emit(n.Start())
-			case "Reset":
-				c.Emit(n.Reset())
-			case "Restart": // the process restarts: a fresh DBFT object over the same ledger
-				c.Emit(n.Restart())
-			case "OnReceive":
-				var r PRec
-				if err := json.Unmarshal(e.Arg, &r); err != nil {
-					panic(err)
-				}
-				c.Emit(n.Receive(fromRec(r)))
-			case "OnTimeout":
-				var a HV
-				_ = json.Unmarshal(e.Arg, &a)
-				c.Emit(n.Timeout(a.H, byte(a.V)))
-			case "OnTransaction":
-				var a TxArg
-				_ = json.Unmarshal(e.Arg, &a)
-				c.Emit(n.Transaction(Tx(a.Tx)))
-			case "OnNewTransaction":
-				c.Emit(n.NewTransaction())
-			}
-		}
+		playBehaviour(c, evs, 0)
 		if last := evs[len(evs)-1]; (evs[0].Sync || evs[0].C09) && last.Done {
 			// the specification says this synchronous run is complete: every live node must have decided up to the target
 			end := RunEnd{Call: "RunEnd", Run: run, Now: c.Clk.Now, Target: evs[0].Target, Heights: [][]int{}, Live: []int{}}
